@@ -26,6 +26,11 @@ def inner : Ty → Ty | named n => named n | list t => t | nonNull t => t
 /-- Python `.name` of a named type ("" stands for the AttributeError on wrappers). -/
 def name : Ty → String | named n => n | _ => ""
 
+/-- Python `type(a) == type(b)` on type expressions: same outermost constructor
+    (all named types count as one class here; callers guard with `isinstance` first). -/
+def sameCtor : Ty → Ty → Bool
+  | named _, named _ => true | list _, list _ => true | nonNull _, nonNull _ => true | _, _ => false
+
 def size : Ty → Nat | named _ => 1 | list t => t.size + 1 | nonNull t => t.size + 1
 
 theorem size_pos (t : Ty) : 0 < t.size := by cases t <;> simp [size]
